@@ -2,6 +2,7 @@
 import ast
 
 from ..algebra import Alg, Uninterpreted, atom, const, opaque_name
+from ..flow import untuple
 from ..model import AnalysisError, attr_chain, call_name, enclosing, stmts_in
 
 EXPLANATION = (
@@ -43,7 +44,7 @@ def generator(ctx, kind):
     loops = [s for s in fn.body if isinstance(s, ast.For)]
     ctx.need(len(loops) == 1, "R19.1", "%s: loop not found" % qual)
     loop = loops[0]
-    pre = fn.body[:fn.body.index(loop)]
+    pre = untuple(fn.body[:fn.body.index(loop)])
     # --- R19.2 zero guard before the division
     guard_i = div_i = None
     count_var = fn.args.args[1].arg
@@ -106,7 +107,7 @@ def generator(ctx, kind):
     yld = None
     after = []
     body_lin = []
-    for s in loop.body:
+    for s in untuple(loop.body):
         if isinstance(s, ast.If):
             pin = s
             continue
@@ -129,7 +130,7 @@ def generator(ctx, kind):
     ctx.ob("R19.1", "%s[last end pinned]" % qual, ok_pin, ast.unparse(pin)[:100] if pin is not None else "no pin", loop.lineno,
            "the last curve must end exactly at the arc's end point, not at a recomputed ellipse point")
     it = ast.unparse(loop.iter).replace(" ", "")
-    ctx.ob("R19.1", "%s[iteration count]" % qual, it in ("range(0,%s)" % count_var, "range(%s)" % count_var), it, loop.lineno, "exactly `count` curves are produced")
+    ctx.ob("R19.1", "%s[iteration count]" % qual, it in ("range(0,%s)" % count_var, "range(%s)" % count_var, "range(0,%s,1)" % count_var), it, loop.lineno, "exactly `count` curves are produced")
     ctx.ob("R19.1", "%s[curve runs start..end]" % qual, ast.unparse(call.args[0]) == start_var, "first argument %s" % ast.unparse(call.args[0]), yld.lineno,
            "each curve starts at the carried start point")
     aft = [ast.unparse(s).replace(" ", "") for s in after]
@@ -237,35 +238,96 @@ def generator(ctx, kind):
                "point_at_t is c + rx cos t (cos th, sin th) + ry sin t (-sin th, cos th)")
 
 
+def _descending_indices(it):
+    """range(len(self) - 1, -1, -1) / reversed(range(len(self))) / range(len(self))[::-1]"""
+    def is_len_self(n):
+        return isinstance(n, ast.Call) and call_name(n) == "len" and len(n.args) == 1 and isinstance(n.args[0], ast.Name) and n.args[0].id == "self"
+
+    if isinstance(it, ast.Call) and call_name(it) == "range" and len(it.args) == 3:
+        a0, a1, a2 = it.args
+        try:
+            ok0 = Alg().ev(a0) == Alg().ev(ast.parse("len(self) - 1", mode="eval").body)
+            return ok0 and Alg().ev(a1) == const(-1) and Alg().ev(a2) == const(-1)
+        except Uninterpreted:
+            return False
+    if isinstance(it, ast.Call) and call_name(it) == "reversed" and len(it.args) == 1:
+        r = it.args[0]
+        return isinstance(r, ast.Call) and call_name(r) == "range" and ((len(r.args) == 1 and is_len_self(r.args[0])) or (len(r.args) == 2 and isinstance(r.args[0], ast.Constant) and r.args[0].value == 0 and is_len_self(r.args[1])))
+    return False
+
+
 def path_level(ctx):
+    from ..flow import Taint, bindings
+
     for kind, gen in (("cubics", "as_cubic_curves"), ("quads", "as_quad_curves")):
         qual = "Path.approximate_arcs_with_%s" % kind
         fn = ctx.fn(qual, "R19.4")
         loops = [s for s in fn.body if isinstance(s, ast.For)]
-        ctx.need(len(loops) == 1, "R19.4", "%s: loop not found" % qual)
-        it = ast.unparse(loops[0].iter).replace(" ", "")
-        ctx.ob("R19.4", "%s[backwards]" % qual, it == "range(len(self)-1,-1,-1)", it, loops[0].lineno,
+        ctx.need(len(loops) == 1 and isinstance(loops[0].target, ast.Name), "R19.4", "%s: loop not found" % qual)
+        lp = loops[0]
+        ctx.ob("R19.4", "%s[backwards]" % qual, _descending_indices(lp.iter), ast.unparse(lp.iter), lp.lineno,
                "replacing from the back keeps the indices of the segments still to visit valid")
-        iv = loops[0].target.id
-        asg = [s for s in ast.walk(loops[0]) if isinstance(s, ast.Assign) and isinstance(s.targets[0], ast.Subscript) and ast.unparse(s.targets[0].value) == "self"]
-        ok = len(asg) == 1 and isinstance(asg[0].targets[0].slice, ast.Slice) and ast.unparse(asg[0].targets[0].slice).replace(" ", "") == "%s:%s+1" % (iv, iv) \
-            and gen in ast.unparse(asg[0].value) and ast.unparse(asg[0].value).startswith("list(")
-        ctx.ob("R19.4", "%s[slice assignment]" % qual, ok, ast.unparse(asg[0])[:100] if asg else "", loops[0].lineno,
+        iv = lp.target.id
+        segv = [tg.id for tg, v, n in bindings(lp) if isinstance(tg, ast.Name) and isinstance(v, ast.Subscript) and isinstance(v.value, ast.Name) and v.value.id == "self"
+                and isinstance(v.slice, ast.Name) and v.slice.id == iv]
+        ctx.need(len(segv) == 1, "R19.4", "%s: current segment local not found" % qual)
+        seg = segv[0]
+        gens = [c for c in ast.walk(lp) if isinstance(c, ast.Call) and attr_chain(c.func) == [seg, gen]]
+        t = Taint(lp, lambda n: any(n is c for c in gens), through_containers=False)
+        asg = [x for x in ast.walk(lp) if isinstance(x, ast.Assign) and isinstance(x.targets[0], ast.Subscript) and isinstance(x.targets[0].value, ast.Name) and x.targets[0].value.id == "self"]
+        ok = False
+        if len(asg) == 1 and isinstance(asg[0].targets[0].slice, ast.Slice) and asg[0].targets[0].slice.step is None:
+            sl = asg[0].targets[0].slice
+            try:
+                ok = sl.lower is not None and sl.upper is not None and Alg().ev(sl.lower) == atom(iv) and Alg().ev(sl.upper) == atom(iv) + const(1)
+            except Uninterpreted:
+                ok = False
+            ok = ok and bool(gens) and t.derived(asg[0].value)
+        ctx.ob("R19.4", "%s[slice assignment]" % qual, ok, ast.unparse(asg[0])[:100] if asg else "", lp.lineno,
                "exactly the arc is replaced, by slice assignment (the path re-validates all connections)")
-        guard = any(isinstance(s, ast.If) and ast.unparse(s.test) == "isinstance(segment, Arc)" for s in ast.walk(loops[0]))
-        ctx.ob("R19.4", "%s[arcs only]" % qual, guard, "", loops[0].lineno, "other segments are untouched")
+        # the replacement happens only for arcs: the store is under `isinstance(seg, Arc)` or after `if not isinstance(seg, Arc): continue`
+        guard = False
+        for x in ast.walk(lp):
+            if isinstance(x, ast.If):
+                tst, neg = x.test, False
+                if isinstance(tst, ast.UnaryOp) and isinstance(tst.op, ast.Not):
+                    tst, neg = tst.operand, True
+                is_arc = isinstance(tst, ast.Call) and call_name(tst) == "isinstance" and len(tst.args) == 2 and isinstance(tst.args[0], ast.Name) and tst.args[0].id == seg \
+                    and isinstance(tst.args[1], ast.Name) and tst.args[1].id == "Arc"
+                if is_arc and not neg and asg and any(asg[0] is y for b_ in x.body for y in ast.walk(b_)):
+                    guard = True
+                if is_arc and neg and x.body and isinstance(x.body[-1], ast.Continue) and asg and asg[0].lineno > x.lineno:
+                    guard = True
+        ctx.ob("R19.4", "%s[arcs only]" % qual, guard, "", lp.lineno, "other segments are untouched")
         alg = Alg()
-        for s in fn.body:
-            if isinstance(s, ast.Assign):
-                alg.assign(s)
-        cnt = [s for s in ast.walk(loops[0]) if isinstance(s, ast.Assign) and isinstance(s.targets[0], ast.Name) and "ceil(" in ast.unparse(s.value)]
+        for x in fn.body:
+            if isinstance(x, ast.Assign):
+                try:
+                    alg.assign(x)
+                except Uninterpreted:
+                    pass
+        cnt = []
+        for c in gens:
+            if c.args:
+                a0 = c.args[0]
+                if isinstance(a0, ast.Name):
+                    ds = [v for tg, v, n in bindings(lp) if isinstance(tg, ast.Name) and tg.id == a0.id]
+                    cnt.extend(ds)
+                else:
+                    cnt.append(a0)
         ok = False
         if cnt:
-            v = cnt[0].value
-            while isinstance(v, ast.Call) and isinstance(v.func, ast.Name) and v.func.id in ("int", "ceil"):
+            v = cnt[0]
+            while isinstance(v, ast.Call) and isinstance(v.func, ast.Name) and v.func.id in ("int", "ceil") and len(v.args) == 1:
                 v = v.args[0]
-            ok = alg.ev(v) == atom("abs(segment.sweep)") / (const(2) * atom("pi") * atom("error"))
-        ctx.ob("R19.4", "%s[slice count]" % qual, ok, ast.unparse(cnt[0].value) if cnt else "", loops[0].lineno, "count = ceil(|sweep| / (full turn x error)): a finer error gives more curves")
+            try:
+                ok = alg.ev(v) == atom("abs(%s.sweep)" % seg) / (const(2) * atom("pi") * atom("error"))
+            except Uninterpreted:
+                ok = False
+        ctx.ob("R19.4", "%s[slice count]" % qual, ok, ast.unparse(cnt[0])[:80] if cnt else "", lp.lineno, "count = ceil(|sweep| / (full turn x error)): a finer error gives more curves")
     si = ctx.fn("Path.__setitem__", "R19.4")
-    ok = any(isinstance(s, ast.If) and ast.unparse(s.test) == "isinstance(index, slice)" and "self.validate_connections()" in ast.unparse(s.body[0]) for s in ast.walk(si))
+    ok = False
+    for x in ast.walk(si):
+        if isinstance(x, ast.If) and isinstance(x.test, ast.Call) and call_name(x.test) == "isinstance" and len(x.test.args) == 2 and isinstance(x.test.args[1], ast.Name) and x.test.args[1].id == "slice":
+            ok = ok or any(isinstance(c, ast.Call) and attr_chain(c.func) == ["self", "validate_connections"] for y in x.body for c in ast.walk(y))
     ctx.ob("R19.4", "Path.__setitem__[slice revalidates]", ok, "", si.lineno, "slice assignment must re-link starts and ends of all segments")
